@@ -68,66 +68,25 @@ Fixpoint cuts_ok (o e : list (marker * list ev)) : bool :=
   end.
 
 Section Case.
-  Variables (nops kgc mx : N) (delay : bool) (input0 : list ritem) (obs : list (list (list ev))) (wms : list (list N)).
+  Variables (nops kgc mx : N) (delay : bool) (input : list ritem) (obs : list (list (list ev))) (wms : list (list N)).
 
   Definition kbtab : list (N * (N * list kev)) :=
-    flat_map (fun it => match it with RRec x sp kvs => [(x, (sp, kvs))] | RMark _ => [] end) input0.
+    flat_map (fun it => match it with RRec x sp kvs => [(x, (sp, kvs))] | RMark _ => [] end) input.
   Definition kb (x : N) : list kev := match assoc N.eqb x kbtab with Some (_, kvs) => kvs | None => [] end.
   Definition split_of (x : N) : N := match assoc N.eqb x kbtab with Some (sp, _) => sp | None => 0 end.
+  Definition items : list item := map (fun it => match it with RRec x _ _ => IRec x | RMark m => IMark m end) input.
 
   (* the router, tabulated once per distinct key: partitioning.KeySpace.RangeIndex as modelled for C05 *)
   Definition keys : list (list N) :=
     fold_right (fun k acc => if existsb (key_eqb k) acc then acc else k :: acc) []
-      (flat_map (fun it => match it with RRec _ _ kvs => map fst kvs | RMark _ => [] end) input0).
+      (flat_map (fun it => match it with RRec _ _ kvs => map fst kvs | RMark _ => [] end) input).
   Definition rtab : list (list N * nat) := map (fun k => (k, N.to_nat (range_index kgc nops k))) keys.
   Definition route (k : list N) : nat :=
     match assoc key_eqb k rtab with Some i => i | None => N.to_nat (range_index kgc nops k) end.
 
   Definition n_ops := N.to_nat nops.
-  Definition stream (i : nat) : list ev := concat (nth i obs []).
-  Definition to_items (l : list ritem) : list item :=
-    map (fun it => match it with RRec x _ _ => IRec x | RMark m => IMark m end) l.
-
-  (* ---- idle watermark ticks are optional. A tick the read loop consumed when no record had been read since the previous
-     tick would carry the value of the previous watermark; C04 does not oblige the runner to emit it (a runner may
-     suppress it). Which idle ticks were emitted is read off the operators' streams: an observed marker is matched with
-     the next script marker that has the same kind and the same records ahead of it; script markers skipped on the way
-     must be idle ticks. Every other marker (barriers, ticks after a record was read) stays mandatory. The decisions of
-     the operator that got furthest are applied to the input; an operator that decided differently then fails the marker
-     check below. *)
-  Fixpoint idle_flags (dirty : bool) (l : list ritem) : list bool :=
-    match l with
-    | [] => []
-    | RRec _ _ _ :: l' => idle_flags true l'
-    | RMark Wm :: l' => negb dirty :: idle_flags false l'
-    | RMark _ :: l' => false :: idle_flags dirty l'
-    end.
-  Fixpoint decide (o e : list (marker * list ev)) (idl : list bool) : list bool :=
-    match e, idl with
-    | (m', b) :: e', id :: idl' =>
-        match o with
-        | (m, a) :: o' =>
-            if marker_eqb m m' && multiset_eqb a b then true :: decide o' e' idl'
-            else if id then false :: decide o e' idl' else []
-        | [] => if id then false :: decide [] e' idl' else []
-        end
-    | _, _ => []
-    end.
-  Definition idl0 := ideal kb (to_items input0).
-  Definition decisions (i : nat) : list bool :=
-    decide (cuts [] (stream i)) (cuts [] (filter (sel route i) idl0)) (idle_flags false input0).
-  Definition best_decisions : list bool :=
-    fold_left (fun acc i => let d := decisions i in if Nat.ltb (length acc) (length d) then d else acc) (seq 0 n_ops) [].
-  Fixpoint apply_decisions (k : nat) (l : list ritem) : list ritem :=
-    match l with
-    | [] => []
-    | RMark m :: l' => if nth k best_decisions true then RMark m :: apply_decisions (S k) l' else apply_decisions (S k) l'
-    | r :: l' => r :: apply_decisions k l'
-    end.
-  (* the input with the idle ticks the runner did not emit removed; everything below is about this input *)
-  Definition input : list ritem := apply_decisions 0 input0.
-  Definition items : list item := to_items input.
   Definition idl := ideal kb items.
+  Definition stream (i : nat) : list ev := concat (nth i obs []).
   Definition all_obs : list ev := flat_map stream (seq 0 n_ops).
 
   (* ---- the model, run under its canonical schedule; streams at quiescence do not depend on the schedule *)
@@ -201,9 +160,69 @@ Section Case.
           (if model_agrees then [] else [1])).
 End Case.
 
+(* ---- idle watermark ticks are optional. A tick the read loop consumed when no record had been read since the previous
+   tick would carry the value of the previous watermark; C04 does not oblige the runner to emit it (a runner may suppress
+   it). Which idle ticks were emitted is read off the operators' streams: an observed marker is matched with the next
+   script marker that has the same kind and the same records ahead of it; script markers skipped on the way must be idle
+   ticks. Every other marker (barriers, ticks after a record was read) stays mandatory. The decisions of the operator
+   that got furthest are applied to the input (computed ONCE per case); all checks then run on that input, so an operator
+   that decided differently fails the marker check. *)
+Fixpoint idle_flags (dirty : bool) (l : list ritem) : list bool :=
+  match l with
+  | [] => []
+  | RRec _ _ _ :: l' => idle_flags true l'
+  | RMark Wm :: l' => negb dirty :: idle_flags false l'
+  | RMark _ :: l' => false :: idle_flags dirty l'
+  end.
+Fixpoint decide (o e : list (marker * list ev)) (idl : list bool) : list bool :=
+  match e, idl with
+  | (m', b) :: e', id :: idl' =>
+      match o with
+      | (m, a) :: o' =>
+          if marker_eqb m m' && multiset_eqb a b then true :: decide o' e' idl'
+          else if id then false :: decide o e' idl' else []
+      | [] => if id then false :: decide [] e' idl' else []
+      end
+  | _, _ => []
+  end.
+(* skips after an operator's last matched marker say nothing (its stream may simply not be complete yet) *)
+Fixpoint trim_skips (d : list bool) : list bool :=
+  match d with
+  | [] => []
+  | b :: d' => match trim_skips d' with [] => if b then [true] else [] | t => b :: t end
+  end.
+(* markers within the decisions: as decided; beyond them (no operator has been given any later marker): an idle tick
+   counts as not emitted, every other marker stays expected *)
+Fixpoint apply_decisions (dec flags : list bool) (l : list ritem) : list ritem :=
+  match l with
+  | [] => []
+  | RMark m :: l' =>
+      match dec with
+      | false :: dec' => apply_decisions dec' (tl flags) l'
+      | _ :: dec' => RMark m :: apply_decisions dec' (tl flags) l'
+      | [] => if hd false flags then apply_decisions [] (tl flags) l' else RMark m :: apply_decisions [] (tl flags) l'
+      end
+  | r :: l' => r :: apply_decisions dec flags l'
+  end.
+Definition effective_input (nops kgc : N) (input0 : list ritem) (obs : list (list (list ev))) : list ritem :=
+  let idl0 := idl input0 in
+  let flags := idle_flags false input0 in
+  let rt := rtab nops kgc input0 in
+  let rte := fun k => match assoc key_eqb k rt with Some i => i | None => N.to_nat (range_index kgc nops k) end in
+  let best :=
+    fold_left (fun acc i =>
+                 let d := trim_skips (decide (cuts [] (concat (nth i obs []))) (cuts [] (filter (sel rte i) idl0)) flags) in
+                 if Nat.ltb (length acc) (length d) then d else acc)
+              (seq 0 (N.to_nat nops)) [] in
+  apply_decisions best flags input0.
+
 Definition nodup (l : list N) : list N := fold_right (fun c acc => if existsb (N.eqb c) acc then acc else c :: acc) [] l.
 Definition check_case (c : case) : list N :=
-  match c with RC nops kgc mx delay input obs wms aborted failed bad => nodup (check nops kgc mx delay input obs wms aborted failed bad) end.
+  match c with
+  | RC nops kgc mx delay input0 obs wms aborted failed bad =>
+      let input := effective_input nops kgc input0 obs in
+      nodup (check nops kgc mx delay input obs wms aborted failed bad)
+  end.
 
 Definition run (cases : list (N * case)) : list (N * N) :=
   flat_map (fun ic => map (fun code => (fst ic, code)) (check_case (snd ic))) cases.
